@@ -142,6 +142,12 @@ pub fn global_epoch() -> usize {
     crate::ebr_impl::default_collector().global_epoch().value()
 }
 
+/// Epoch of the bag at the front of the default collector's garbage queue (`None`: empty).
+pub fn queue_front_epoch() -> Option<usize> {
+    let guard = crate::cs();
+    ebr_int::queue_front_epoch(&crate::ebr_impl::default_collector().global, &guard)
+}
+
 /// Address of the global epoch variable of the default collector.
 pub fn global_epoch_addr() -> usize {
     ebr::global_epoch_addr(crate::ebr_impl::default_collector())
